@@ -3,6 +3,7 @@ package main
 import (
 	"context"
 	"fmt"
+	"github.com/brimdata/super/pkg/verifhook"
 	"sort"
 	"strings"
 
@@ -239,6 +240,9 @@ func followUp(ctx context.Context, l *lk.Lake, st lakeState, tag string) error {
 }
 
 func runC17(c *rt.Ctx) {
+	// released zngio buffers are overwritten (H1): lake code that keeps using a
+	// value after the reader has moved on reads garbage deterministically
+	verifhook.SetPoison(true)
 	c.Note("rule", "case = (history, victim operation, storage back end); the victim runs once uncrashed to learn its storage trace and the observable after-state, then once per crash point (every counted storage operation of the victim; on the file-semantics back end also every Write of a Put, the create/fill halves of PutIfNotExists, and half-applied writes); after each crash a cold handle must open the lake, read every pool and branch, see exactly the before- or the after-state, and run a fixed follow-up workload (load, delete-where, query, create branch, merge, create/rename pool); evaluations = crash points; non-trivial = crash point strictly inside the victim's trace; distinct by (case, crash point)")
 	c.Note("assumptions", "fail-stop crash model: the crashing operation and everything after it have no effect on storage (optionally the crashing write is half applied); storage itself is durable and ordered\nobject-store back end: Put visible atomically at Close; file back end: truncate at open, each Write visible at once (pkg/storage/file.go)")
 	nh := c.N(36, 700)
